@@ -51,6 +51,26 @@ Theorem C10_cbor_enc_wellformed : forall (O : eopts) (i : item),
 Proof. exact enc_wellformed_lemma. Qed.
 Print Assumptions C10_cbor_enc_wellformed.
 
+(* RFC 8949 3.2.3 (F10-4): every chunk the encoder cuts a TEXT string into under IndefiniteLength is itself
+   valid UTF-8 ([utf8_valid]: RFC 3629 well-formedness written in C10.CborSpec; [chunks_utf8]: all chunks of
+   all indefinite-length text strings of a tree).  Partial: proved by an exhaustive sweep over every text of
+   at most 8 characters drawn from 1-, 2-, 3- and 4-byte samples (87381 texts, up to 32 bytes: every alignment
+   of a multi-byte character against the cut, chunk lengths 4..8) - the bound is [texts_upto 8]; the general
+   statement (any valid UTF-8 text, any length) is not proved, it is covered by the enc stream's
+   out:text-chunk-not-utf8 oracle.  With the pre-repair cutting at fixed offsets this statement is false. *)
+Theorem C10_cbor_text_chunks_utf8_partial : forall (O : eopts) (s : list N),
+  eo_str2raw O = false -> In s (texts_upto 8) -> chunks_utf8 (tree_of O (IStr s)) = true.
+Proof. exact text_chunks_lemma. Qed.
+Print Assumptions C10_cbor_text_chunks_utf8_partial.
+
+Example C10_cbor_text_chunks_nonvacuous :
+  let s := [97; 97; 97; 195; 169; 97; 97; 97; 195; 169; 97; 97; 97; 195; 169] in     (* "aaa\u00e9aaa\u00e9aaa\u00e9" *)
+  chunks true (length s) (chunk_len (length s)) s = [[97; 97; 97]; [195; 169; 97; 97]; [97; 195; 169; 97]; [97; 97; 195; 169]]
+  /\ chunks false (length s) (chunk_len (length s)) s = [[97; 97; 97; 195]; [169; 97; 97; 97]; [195; 169; 97; 97]; [97; 195; 169]]
+  /\ utf8_valid [97; 97; 97; 195] = false /\ existsb (eqbl s) (texts_upto 8) = false
+  /\ existsb (eqbl [97; 97; 97; 195; 169; 97; 226; 130; 172]) (texts_upto 8) = true /\ N.of_nat (length (texts_upto 8)) = 87381.
+Proof. vm_compute. repeat split. Qed.
+
 (* a RawExt carrying Data is the tag followed by Data verbatim: well-formed exactly when Data is *)
 Theorem C10_cbor_ext : forall (O : eopts) (t : N) (t' : wtree),
   t < 18446744073709551616 -> enc O (IExt t (ser t')) = ser (TTag (minw t) t t').
